@@ -1,10 +1,10 @@
-CONSTANTS NK = 7
-  KType <- T6
-  KXid <- X6
-  KMax <- M6
-  KGen <- G6
+CONSTANTS NK = 9
+  KType <- T9
+  KXid <- X9
+  KMax <- M9
+  KGen <- G9
   MaxN = 5
-  OtherKinds <- OthersAll
+  OtherKinds <- OthersMore
   RawModes <- RawAll
   D = 0
 INIT TrInit
